@@ -188,7 +188,7 @@ def handle (op : String) (req : Json) : R Json := do
                 ("params_rows", jParams (readParams x true comma tr)),
                 ("params_cols", jParams (readParams x false comma tc)),
                 ("spec_params", specPar),
-                ("sniff_rows", jFmt (sniff tr)), ("sniff_cols", jFmt (sniff tc)),
+                ("sniff_rows", jFmt (sniffText xr)), ("sniff_cols", jFmt (sniffText xc)),
                 ("spec_sniff_rows", jFmt .rows), ("spec_sniff_cols", jFmt .columns),
                 ("other_rows", jBool (otherFile tr)), ("other_cols", jBool (otherFile tc)),
                 ("load_rows", jLoad (ldText xr tr0 false)), ("load_cols", jLoad (ldText xc tc0 false)),
@@ -220,7 +220,7 @@ def handle (op : String) (req : Json) : R Json := do
       | _ => throw "bad int table entry") req "ints"
     let hi : Std.HashMap String (Option Int) := Std.HashMap.ofList ints
     let x : Ext V := { parse := fun t => ((hm.get? t).getD none), readInt := fun t => ((hi.get? t).getD none) }
-    let sn := jFmt (sniff (lines.map (fun l => [l])))
+    let sn := jFmt (sniffText lines)
     let ld := fun ua => jLoad (loadText x lines ua)
     match tableOf delim lines with
     | none =>
